@@ -530,4 +530,17 @@ example : isWriteCmd 0x184 = false ∧ isWriteCmd 0x14E = false := by decide
 /-! ### Non-vacuity -/
 example : defineChecks RH_OWNER [] { handle := 0x01500000, nameAlg := 0x000B, attrs := 0x02020002 + 16, policy := [], size := 8 } = none := by decide
 
+/-- what parameter unmarshalling refuses comes first: an authValue that does not fit a TPM2B_AUTH (more than 64 bytes) is
+    TPM_RC_SIZE for the auth parameter whatever the public area says -/
+theorem define_auth_overlong (a : Nat) (auth : Bytes) (p : Pub) (h : auth.length > 64) :
+    defineChecks a auth p = some (TPM_RC_SIZE + RC_NV_DefineSpace_auth) := by
+  unfold defineChecks defineTable
+  simp [firstHit, h]
+
+/-- then the size of the index: above MAX_NV_INDEX_SIZE it is TPM_RC_SIZE for the public area, for every index type -/
+theorem define_size_overlong (a : Nat) (auth : Bytes) (p : Pub) (h1 : ¬ auth.length > 64) (h2 : p.size > MAX_NV_INDEX_SIZE) :
+    defineChecks a auth p = some (rcPub TPM_RC_SIZE) := by
+  unfold defineChecks defineTable
+  simp [firstHit, h1, h2]
+
 end TpmVerif.Props.C09
